@@ -69,7 +69,8 @@ struct CReq { int kind; void* buf; size_t cap; uint64_t sum = 0; };   // kind 0 
 // MPI usage rules the real code must obey but a copying simulation would otherwise never notice:
 //  * a send buffer must not be modified before the send completes (checksum at post, re-checked at completion);
 //  * the buffers of two active receives must not overlap;
-//  * a posted receive buffer has undefined content until completion (its head is poisoned at post time).
+//  * a posted receive buffer has undefined content until completion (its head is poisoned at post time) and must not be written by
+//    the application while the receive is active (the poison is verified at completion and at MPI_Cancel).
 uint64_t bufsum(const void* b, size_t n) { const unsigned char* p = (const unsigned char*)b; uint64_t h = 1469598103934665603ULL; for (size_t i = 0; i < n; ++i) { h ^= p[i]; h *= 1099511628211ULL; } return h; }
 [[noreturn]] void usage_error(const char* what) { fprintf(stderr, "SIMMPI-USAGE-ERROR: %s\n", what); fflush(stderr); abort(); }
 std::map<int, CReq> g_reqs;
@@ -82,12 +83,20 @@ Reply call(int op, std::initializer_list<int> a, const void* payload = nullptr, 
   r.data.resize(r.h.len); if (r.h.len && !rd(g_fd, r.data.data(), r.h.len)) _exit(98);
   return r;
 }
+// an active receive owns its buffer: the application must not write into it between the post and the completion (the head was
+// poisoned at post time; anything else there now — e.g. pages zero-filled by madvise(MADV_DONTNEED) — was put there by the application)
+static void check_recv_poison(const void* b, size_t cap) {
+  if (!b || !cap) return;
+  const unsigned char* q = (const unsigned char*)b; size_t m = std::min<size_t>(cap, 65536);
+  for (size_t i = 0; i < m; ++i) if (q[i] != 0xA5) usage_error("receive buffer modified while the receive was active");
+}
 // a completion record inside a reply payload: [int32 reqid][int32 src][int32 tag][uint64 n][n bytes]
 size_t apply_completion(const char* p, MPI_Status* st) {
   int32_t id, src, tag; uint64_t n; memcpy(&id, p, 4); memcpy(&src, p + 4, 4); memcpy(&tag, p + 8, 4); memcpy(&n, p + 12, 8);
   auto it = g_reqs.find(id);
   if (it != g_reqs.end()) {
     if (it->second.kind == 0 && it->second.buf && bufsum(it->second.buf, it->second.cap) != it->second.sum) usage_error("send buffer modified before the send completed");
+    if (it->second.kind == 1) check_recv_poison(it->second.buf, it->second.cap);
     if (it->second.kind != 0 && n) memcpy(it->second.buf, p + 20, std::min<size_t>(n, it->second.cap));
     g_reqs.erase(it);
   }
@@ -151,7 +160,7 @@ int MPI_Comm_compare(MPI_Comm a, MPI_Comm b, int* res) { *res = call((Op)OP_COMM
 int MPI_Request_free(MPI_Request* rq) { if (*rq == MPI_REQUEST_NULL) return MPI_SUCCESS; int done = call((Op)OP_REQ_FREE, {*rq}).h.a[0]; auto it = g_reqs.find(*rq);
   if (it != g_reqs.end() && it->second.kind == 0 && !done) usage_error("MPI_Request_free on a send that has not completed: the send buffer must stay untouched for an unknown time");
   g_reqs.erase(*rq); *rq = MPI_REQUEST_NULL; return MPI_SUCCESS; }
-int MPI_Cancel(MPI_Request* rq) { call(OP_CANCEL, {*rq}); g_reqs.erase(*rq); return MPI_SUCCESS; }
+int MPI_Cancel(MPI_Request* rq) { auto it = g_reqs.find(*rq); if (it != g_reqs.end() && it->second.kind == 1) check_recv_poison(it->second.buf, it->second.cap); call(OP_CANCEL, {*rq}); g_reqs.erase(*rq); return MPI_SUCCESS; }
 int MPI_Get_count(const MPI_Status* st, MPI_Datatype dt, int* n) { *n = st->_count / (int)dtsize(dt); return MPI_SUCCESS; }
 int MPI_Test(MPI_Request* rq, int* flag, MPI_Status* st) {
   if (*rq == MPI_REQUEST_NULL) { *flag = 1; return MPI_SUCCESS; }
